@@ -395,6 +395,8 @@ class Ctx:
         ks = kids(v)
         if not ks:
             raise Refuse("uninitialised local %r" % name)
+        if name in self.scope.defs or name in self.scope.sym or name in self.loci or name in self.genes:
+            raise Refuse("local %r shadows an earlier name" % name)
         init = ks[0]
         if "locus" in t:
             self.loci[name] = self.locus(init)
@@ -450,6 +452,8 @@ class Ctx:
         if qtype(v) not in UNSIGNED:
             raise Refuse("loop variable %r of type %r" % (name, qtype(v)))
         lo = self.scope.expr(kids(v)[0])
+        if name in self.scope.defs or name in self.scope.sym:
+            raise Refuse("loop variable %r shadows an earlier name" % name)
         self.scope.sym.add(name)
         c = strip(cond)
         if c.get("kind") != "BinaryOperator" or c.get("opcode") not in ("<", "!="):
